@@ -23,6 +23,15 @@
 (*   Throughput     loss-free fixed-capacity run: bytes delivered after the *)
 (*                  warm-up >= 1/2 capacity x time (no deadlock, no         *)
 (*                  settling far below capacity), per profile               *)
+(*   NoDeadlock     loss-free fixed-capacity run: whenever the window allows *)
+(*                  sending but HasPacingBudget(now) is false, the time      *)
+(*                  TimeUntilSend() announces is in the future and there is  *)
+(*                  budget for a full (current-size) datagram at that time - *)
+(*                  otherwise QUIC's send loop re-enters at once with        *)
+(*                  nothing changed (deadlock in virtual time, hot spin in   *)
+(*                  real time).  On other paths the same condition is only   *)
+(*                  DRIFT_PaceStall (the statement speaks of deadlock on the *)
+(*                  loss-free fixed-capacity path).                          *)
 (* DRIFT_* clauses: stimulus outside Env_Quic, or the queue's results differ*)
 (* from the abstract queue of Sys_PNQueue.                                  *)
 (*                                                                          *)
@@ -40,7 +49,7 @@ RealCfg == [minPkts |-> 4, maxPkts |-> 20000, minBps |-> 65536, thresh |-> 3,
 
 DriftClauses == {"DRIFT_EnvTime", "DRIFT_EnvPn", "DRIFT_EnvInflight", "DRIFT_EnvAck", "DRIFT_EnvPrior",
                  "DRIFT_EnvThreshold", "DRIFT_EnvMDS", "DRIFT_EnvLossfree", "DRIFT_EnvSize",
-                 "DRIFT_QResult", "DRIFT_QState"}
+                 "DRIFT_QResult", "DRIFT_QState", "DRIFT_PaceStall"}
 
 MonStart(cfg, mds) ==
   [viol    |-> {},
@@ -127,6 +136,14 @@ SetMDSStep(m, e, ln) ==
       m1   == [m EXCEPT !.mds = IF envM THEN m.mds ELSE e.mds, !.envbad = bad]
   IN [m1 EXCEPT !.viol = VAll(m.viol, e, ln, << <<"DRIFT_EnvMDS", Once(m, "DRIFT_EnvMDS", envM)>> >> \o OutClauses(m1, e, bad))]
 
+\* ---------- the send loop is pacing-limited: CanSend, HasPacingBudget(now), TimeUntilSend() ----------
+\* e: can, budget, dNs (announced time - now, clipped; <= 0: not in the future), okAt (HasPacingBudget at the announced time)
+PaceStep(m, e, ln) ==
+  LET stall == e.can /\ ~e.budget /\ (e.dNs <= 0 \/ ~e.okAt) IN
+  [m EXCEPT !.viol = VAll(m.viol, e, ln,
+     << <<"NoDeadlock", m.measure /\ ~m.envbad /\ stall>>,
+        <<"DRIFT_PaceStall", Once(m, "DRIFT_PaceStall", ~m.measure /\ stall)>> >>)]
+
 \* ---------- end of a simulated run ---------------------------------------------
 RunEndStep(m, e, ln) ==
   LET durS == (e.t - m.warm) \div 1000000
@@ -164,6 +181,7 @@ MonStep(m, e, ln) ==
     [] e.ev = "Sent"   -> SentStep(m, e, ln)
     [] e.ev = "Cong"   -> CongStep(m, e, ln)
     [] e.ev = "SetMDS" -> SetMDSStep(m, e, ln)
+    [] e.ev = "Pace"   -> PaceStep(m, e, ln)
     [] e.ev = "RunEnd" -> RunEndStep(m, e, ln)
     [] e.ev = "QOp"    -> QStep(m, e, ln)
     [] e.ev = "Panic"  -> [m EXCEPT !.viol = V(m.viol, e, ln, "Panic", TRUE)]
